@@ -61,6 +61,10 @@ pub fn check_result(
     let truth: Vec<(f64, f64)> = res.iter().map(|(id, _)| m.true_distance(q, &im.items[id], im.dim)).collect();
     if accurate {
         for ((id, d), (t, scale)) in res.iter().zip(&truth) {
+            if !t.is_finite() {
+                // a non-finite query component: nothing to compare numerically
+                continue;
+            }
             let tol = 1e-4 * scale.max(1.0).max(t.abs());
             if !((*d as f64 - t).abs() <= tol) {
                 return Err(format!("item {id}: reported distance {d} but the true distance is {t}"));
